@@ -219,7 +219,7 @@ namespace
                     else if (op[0] == 'r') { const long k = std::stol(op.substr(1, col - 1)); if (m.smap.count(k)) { if (m.smap[k].erase(std::stol(op.substr(col + 1)))) effective = true; touched.insert(k); } }
                     else if (op[0] == 'e') { const long k = std::stol(op.substr(1)); if (m.smap.count(k)) { m.graveyard[k] = m.smap[k]; m.smap.erase(k); effective = true; } touched.erase(k); }
                 }
-                else if constexpr (std::is_same_v<Sh, ShapeTSL>)
+                else if constexpr (std::is_same_v<Sh, ShapeTSL> || std::is_same_v<Sh, ShapeDynL>)
                 {
                     auto eq = op.find('='); const long i = std::stol(op.substr(0, eq)); m.imap[i] = std::stol(op.substr(eq + 1)); touched.insert(i); m.child_lmt[i] = c; effective = true;
                 }
@@ -256,6 +256,7 @@ namespace
             e.all_valid = e.valid;
             if constexpr (std::is_same_v<Sh, ShapeTSW>) { e.valid = m.pushes >= 1; e.all_valid = m.pushes >= 2; }  // a window exists from its first element; the minimum count gates all_valid (pinned by python/tests ... test_to_window_validity_and_absent_removed_value)
             if constexpr (std::is_same_v<Sh, ShapeTSL> || std::is_same_v<Sh, ShapeTSB>) e.all_valid = m.imap.count(0) && m.imap.count(1);
+            if constexpr (std::is_same_v<Sh, ShapeDynL>) { const long n = m.imap.empty() ? 0 : m.imap.rbegin()->first + 1; e.all_valid = m.valid && static_cast<long>(m.imap.size()) == n; }
             e.valid_dont_care = !m.valid && m.any_op;
         }
         auto keyset = [](const auto &mp) { std::set<long> s; for (auto &[k, v] : mp) s.insert(k); return s; };
@@ -301,6 +302,17 @@ namespace
                 if (touched.count(i)) mod.push_back(std::to_string(i) + "=" + std::to_string(m.imap[i]));
                 e.child_mod[i] = touched.count(i) != 0;
                 e.child_valid[i] = m.imap.count(i) != 0;
+            }
+            e.typed.value = "{" + join(val) + "}"; e.typed.modified = "{" + join(mod) + "}";
+        }
+        else if constexpr (std::is_same_v<Sh, ShapeDynL>)
+        {
+            std::vector<std::string> val, mod;
+            const long n = m.imap.empty() ? 0 : m.imap.rbegin()->first + 1;
+            for (long i = 0; i < n; ++i)
+            {
+                val.push_back(std::to_string(i) + "=" + (m.imap.count(i) ? std::to_string(m.imap[i]) : std::string{"?"}));
+                if (touched.count(i)) mod.push_back(std::to_string(i) + "=" + std::to_string(m.imap[i]));
             }
             e.typed.value = "{" + join(val) + "}"; e.typed.modified = "{" + join(mod) + "}";
         }
@@ -462,6 +474,7 @@ namespace
         if (shape == "tsd") return run_shape<ShapeDictI>(script);
         if (shape == "tsds") return run_shape<ShapeDictS>(script);
         if (shape == "tsl") return run_shape<ShapeTSL>(script);
+        if (shape == "tsldyn") return run_shape<ShapeDynL>(script);
         if (shape == "tsb") return run_shape<ShapeTSB>(script);
         if (shape == "tsw") return run_shape<ShapeTSW>(script);
         throw verif::HarnessError("unknown shape " + shape);
@@ -501,6 +514,7 @@ void verif_enumerate(verif::Ctx &ctx)
         {"tsd", {"s1=5", "s1=6", "s2=5", "e1", "e2", "c", "B", "x1=9"}, 2, th ? 4 : 3},
         {"tsds", {"a1:1", "a1:2", "r1:1", "a2:1", "e1", "e2"}, 2, th ? 4 : 3},
         {"tsl", {"0=1", "0=2", "1=1"}, 2, th ? 5 : 4},
+        {"tsldyn", {"0=1", "0=2", "1=1", "2=1", "4=1"}, 2, th ? 4 : 3},   // grow-only dynamic list: growth past unset slots (1->2->3->5 elements)
         {"tsb", {"a=1", "a=2", "b=1", "W1:1", "W2:1", "W1:-"}, 2, th ? 4 : 3},
         {"tsb", {"a=1", "b=1", "W1:1", "W2:1", "W1:2"}, 1, th ? 6 : 5},
         {"tsw", {"p1", "p2", "p3"}, 1, th ? 8 : 6},   // one push per evaluation time is the API contract
